@@ -185,8 +185,8 @@ func c18Core(c *Ctx, p *core.Prog, an *effects.Analysis, main bool) {
 		r.Anchor("C18-RECV", name)
 		var bad []string
 		for _, w := range s.Writes[0] {
-			if name == "(ExtendedReport).Marshal" && w.Callee != nil && w.Callee.Name() == "setupBlockHeader" && setupOK[w.Callee] {
-				continue
+			if (name == "(ExtendedReport).Marshal" || name == "(CompoundPacket).Marshal") && xrHeaderOnlySite(an, w, allowedHdr, 0) {
+				continue // the documented exception, also when the report is a member of a compound packet
 			}
 			bad = append(bad, siteStr(p, w))
 		}
@@ -197,6 +197,9 @@ func c18Core(c *Ctx, p *core.Prog, an *effects.Analysis, main bool) {
 			stringVerified = false
 		}
 		okDetail := "write set w.r.t. the receiver is empty"
+		if name == "(CompoundPacket).Marshal" && len(s.Writes[0]) > 0 {
+			okDetail = "writes through the receiver only where a member ExtendedReport fills in its blocks' XRHeader fields (setupBlockHeader, verified above)"
+		}
 		if name == "(ExtendedReport).Marshal" {
 			okDetail = "writes through the receiver only via setupBlockHeader (verified above to touch XRHeader fields only)"
 		}
@@ -384,4 +387,32 @@ var retainByDesign = map[string]map[string]bool{
 	"(*SenderReport).Unmarshal":       {"ProfileExtensions": true}, // documented: the tail of the buffer
 	"(*ReceiverReport).Unmarshal":     {"ProfileExtensions": true},
 	"(*ApplicationDefined).Unmarshal": {"Data": true},
+}
+
+// xrHeaderOnlySite: the write site is a store to XRHeader.{BlockType,TypeSpecific,BlockLength} inside a
+// setupBlockHeader, or a call all of whose writes (through any of the callee's parameters) are such sites.
+func xrHeaderOnlySite(an *effects.Analysis, w effects.Site, allowed map[string]bool, depth int) bool {
+	if depth > 6 {
+		return false
+	}
+	if w.Callee == nil {
+		return w.What == "store" && allowed[w.Path] && w.Fn != nil && w.Fn.Name() == "setupBlockHeader"
+	}
+	cs := an.Sum[w.Callee]
+	if cs == nil {
+		return false
+	}
+	n := 0
+	for k := 0; k < cs.NRoots; k++ {
+		if k == cs.GlobalRoot() && cs.WritesThrough(k) {
+			return false
+		}
+		for _, w2 := range cs.Writes[k] {
+			n++
+			if !xrHeaderOnlySite(an, w2, allowed, depth+1) {
+				return false
+			}
+		}
+	}
+	return n > 0
 }
